@@ -73,6 +73,8 @@ func pool(thorough bool) []cval {
 		// negative zero is the zero value 0.0 (`-0.0 == 0.0`), however it is produced
 		{Src: "(-0.0)", Zero: true}, {Src: "(0.0 * -1)", Zero: true}, {Src: `"-0".F`, Zero: true}, {Src: "0.0.-%", Zero: true}, {Src: "Float.bear.new(-0.0)", Zero: true},
 		// a user-defined B that yields something other than a boolean: the value is false (B does not yield true)
+		// descendants of functions (Func#B answers for the whole family)
+		{Src: "{|x| x}.bear", NonZero: true}, {Src: "m{1}.bear({a: 1})", NonZero: true}, {Src: "Int['+].bear", NonZero: true}, {Src: "{|x| x}.bear.bear({b: 2})", NonZero: true}, {Src: "<{|x| yield x}>.bear", NonZero: true},
 		{Src: "{B: 1}"}, {Src: `{B: "yes"}`}, {Src: "{n: 3, B: m{.n}}"}, {Src: "{B: m{[3]}}.bear"}, {Src: "7.bear({B: 1})"},
 	}
 	if thorough {
@@ -97,6 +99,11 @@ var constructs = []construct{
 	{"guarded-raise", func(k string) string { return fmt.Sprintf("raise Err.new(\"boom\") if %s\ntr(\"F\", 22)", k) }, "", "E:Err: boom", "F\n", "22"},
 	{"guarded-yield", func(k string) string { return fmt.Sprintf(`<{|| yield tr("T", 11) if %s}>.new.next`, k) }, "T\n", "11", "", "E:StopIterErr: iter stopped"},
 	{"guarded-defer", func(k string) string { return fmt.Sprintf("defer tr(\"D\", 0) if %s\ntr(\"B\", 22)", k) }, "B\nD\n", "22", "B\n", "22"},
+	// the guard is looked at where the statement stands: once, with the value it has there
+	{"guarded-defer-traced-guard", func(k string) string { return fmt.Sprintf("defer tr(\"D\", 0) if tr(\"G\", %s)\ntr(\"B\", 22)", k) }, "G\nB\nD\n", "22", "G\nB\n", "22"},
+	{"guarded-defer-guard-variable-cleared-later", func(k string) string { return fmt.Sprintf("gv := %s\ndefer tr(\"D\", 0) if gv\ngv := nil\ntr(\"B\", 22)", k) }, "B\nD\n", "22", "B\n", "22"},
+	{"guarded-defer-guard-variable-set-later", func(k string) string { return fmt.Sprintf("gv := %s\ndefer tr(\"D\", 0) if gv\ngv := 1\ntr(\"B\", 22)", k) }, "B\nD\n", "22", "B\n", "22"},
+	{"guarded-return-traced-guard", func(k string) string { return fmt.Sprintf("return tr(\"T\", 11) if tr(\"G\", %s)\ntr(\"F\", 22)", k) }, "G\nT\n", "11", "G\nF\n", "22"},
 	{"not", func(k string) string { return "!" + k }, "", "false", "", "true"},
 	{"not-not", func(k string) string { return "!!" + k }, "", "true", "", "false"},
 	{"not-paren-not", func(k string) string { return "!(!" + k + ")" }, "", "true", "", "false"},
